@@ -31,7 +31,7 @@ Fixpoint remove_one (x : item) (l : list item) : list item :=
 
 Definition spec_step (sp : list item) (o : op) : list item :=
   match o with
-  | Insert lo hi => if lo >? hi then sp else sp ++ [(lo, hi)]
+  | Insert lo hi _ => if lo >? hi then sp else sp ++ [(lo, hi)]
   | Delete lo hi => remove_one (lo, hi) sp
   | Clear => []
   end.
@@ -47,13 +47,13 @@ Definition pairwise_disjoint (l : list item) : Prop :=
 Fixpoint real_height (t : tree) : Z :=
   match t with
   | Leaf => 0
-  | Node l _ _ _ _ r => 1 + Z.max (real_height l) (real_height r)
+  | Node l _ _ _ _ _ r => 1 + Z.max (real_height l) (real_height r)
   end.
 
 Fixpoint every_node (P : tree -> Prop) (t : tree) : Prop :=
   match t with
   | Leaf => True
-  | Node l _ _ _ _ r => P t /\ every_node P l /\ every_node P r
+  | Node l _ _ _ _ _ r => P t /\ every_node P l /\ every_node P r
   end.
 
 (* m is the greatest element of the (non-empty) list l *)
@@ -62,7 +62,7 @@ Definition is_max (m : Z) (l : list Z) : Prop := In m l /\ Forall (fun y => y <=
 Definition balanced_at (t : tree) : Prop :=
   match t with
   | Leaf => True
-  | Node l _ _ _ _ r => -1 <= real_height l - real_height r <= 1
+  | Node l _ _ _ _ _ r => -1 <= real_height l - real_height r <= 1
   end.
 
 Definition height_exact_at (t : tree) : Prop := height t = real_height t.
@@ -70,5 +70,5 @@ Definition height_exact_at (t : tree) : Prop := height t = real_height t.
 Definition max_exact_at (t : tree) : Prop :=
   match t with
   | Leaf => True
-  | Node _ _ _ mx _ _ => is_max mx (map snd (inorder t))
+  | Node _ _ _ _ mx _ _ => is_max mx (map snd (inorder t))
   end.
